@@ -81,6 +81,20 @@ def _case(check: Check, cfg, record=False):
 
     rig.run_sym(check, "na_policy", fn, claims, replay=rep, logic="QF_LRA", timeout_ms=5000, case_id=repr(sorted(cfg.items())),
                 sample=cfg, record=record)
+    # ground companion (NOT solver-decided): the same policy oracle natively through what a symbolic tag cannot enter -
+    # sparse output (pandas materializer) and the narwhals materializer (numpy / sparse output; narwhals frames have no index)
+    if cfg["output"] == "pandas" or check.tier == "thorough":
+        for extra in ({"output": "sparse"}, {"output": "numpy", "materializer": "narwhals"}, {"output": "sparse", "materializer": "narwhals"}):
+            c2 = {**cfg, **extra}
+            p = {"kind": "c06_config", "cfg": c2, "tag": None}
+            bad = replays.run(p)
+            check.obligation("na_policy.other_branches/ground", "refuted" if bad else "ground")
+            if bad:
+                cls = "narwhals," if extra.get("materializer") else ""
+                cls += f"output={extra['output']}," + _site(cfg)
+                if extra["output"] == "sparse" and "f" in na.FORMULAS[cfg["formula"]] and cfg["w_nulls"] and cfg["na_action"] == "ignore":
+                    cls = "sparse output,nullable boolean column holding NA,na_action=ignore"
+                check.violation(f"na::{cls}::{bad.split(':', 1)[0]}", bad, p)
 
 
 def _site(cfg):
@@ -98,7 +112,7 @@ def run(check: Check) -> None:
     check.info["rule"] = "configuration = null layout x formula x na_action x caller drop set x entry point x index kind x output x override"
     check.bounds.update({"rows": 4 if check.tier == "thorough" else 3, "null_layouts": "all 2^(2*rows)", "formulas": list(na.FORMULAS),
                          "variants_per_core_cell": 24 if check.tier == "thorough" else 6})
-    check.out_of_scope += ["nulls inside symbolic columns (a real is never NaN)", "more rows", "nulls produced by transforms", "sparse output", "narwhals materializer"]
+    check.out_of_scope += ["nulls inside symbolic columns (a real is never NaN)", "more rows", "nulls produced by transforms", "sparse output and the narwhals materializer are NOT solver-decided (scipy / narwhals cannot hold symbolic cells): the same policy oracle runs natively on them (group na_policy.other_branches/ground)", "index labels under the narwhals materializer (narwhals frames have no index; the index clause is judged on the pandas materializer)"]
     check.assumptions += ["with na_action='ignore' rows listed by the caller are still removed; 'raise' is judged on all rows of the evaluated factors"]
     cfgs = gen_configs(check)
     run_cases(check, cfgs, _case)
